@@ -1,4 +1,4 @@
-\* C17 design spec, quick tier: 2 keys x 2 threads, every operation, capacities {0,1}
+\* C17 design spec, the algorithm BEFORE fixes e7aceb0 / 9182bd2 under the environment assumption CloseExcl: holds (what the old code could be relied on for)
 SPECIFICATION Spec
 CONSTANTS
   Keys = {k1, k2}
@@ -13,7 +13,7 @@ CONSTANTS
   RecheckRef = TRUE
   AtomicFin = FALSE
   RecheckClosed = FALSE
-  CloseExcl = FALSE
+  CloseExcl = TRUE
 SYMMETRY Symm
 VIEW View
 INVARIANTS OneLiveValue ConstructOnce FinalizeOnce CallbackOnce CapacityOK RefSane LruHoldsRef CloseOK
